@@ -29,7 +29,10 @@ WORK_ROOT = os.path.join(HOME, '.work')
 class _NoCacheLoader(importlib.machinery.SourceFileLoader):
     def get_code(self, fullname):
         path = self.get_filename(fullname)
-        return self.source_to_code(self.get_data(path), path)
+        # SPOWTD_VERIF_OPTIMIZE=1: compile spowtd (and only spowtd) the way `python -O` /
+        # PYTHONOPTIMIZE=1 would: assert statements are dropped
+        level = 1 if os.environ.get('SPOWTD_VERIF_OPTIMIZE') == '1' else -1
+        return compile(self.get_data(path), path, 'exec', dont_inherit=True, optimize=level)
 
 
 def _repo_hook(path):
